@@ -449,6 +449,95 @@ def dfs_after(c, prefix, limit=3000):
     return None
 
 
+# ----------------------------------------------------------------------------- multi-output divider
+def divider_run(arg):
+    """strax.divide_outputs feeding `nout` mailboxes (each with nsub subscribers) from one source of dicts,
+    under dsched with a seeded random schedule; returns the observation for MailboxObs.tla."""
+    n, nout, nsub, cap, lazy, flow, seed = arg
+    install()
+    s = dsched.set_sched(dsched.Sched())
+    got = [[[] for _ in range(nsub)] for _ in range(nout)]
+    maxbox = [0] * nout
+    boxes = []
+
+    def main():
+        names = [f"out{d}" for d in range(nout)]
+        mbs = {nm: strax.Mailbox(name=nm, lazy=lazy, max_messages=cap, timeout=None) for nm in names}
+        boxes.extend(mbs.values())
+        src = strax.Mailbox(name="divide", lazy=lazy, max_messages=cap, timeout=None)
+
+        def source():
+            for i in range(n):
+                s.yield_point(("step", "src"))
+                yield {nm: 10 * (d + 1) + i for d, nm in enumerate(names)}
+        src.add_sender(source(), name="S")
+        from functools import partial
+        src.add_reader(partial(strax.divide_outputs, mailboxes=mbs, lazy=lazy, flow_freely=tuple(names[-1:]) if flow else tuple(),
+                               outputs=names), name="DIV")
+        for d, nm in enumerate(names):
+            for k in range(nsub):
+                def rd(it, d=d, k=k):
+                    for x in it:
+                        s.yield_point(("step", "consume"))
+                        got[d][k].append(x)
+                # the flow-freely output is read by a non-driving subscriber (as a discarded / saved side output would be)
+                mbs[nm].add_reader(rd, name=f"R{d}_{k}", can_drive=not (flow and d == nout - 1))
+        for m in [src] + list(mbs.values()):
+            m.start()
+        for m in [src] + list(mbs.values()):
+            m.cleanup()
+    rng = random.Random(seed)
+    s.spawn("main", main)
+    hang = False
+    try:
+        while True:
+            en = s.enabled_tasks()
+            if not en:
+                hang = not s.all_done()
+                break
+            s.step(rng.choice(en))
+            for d, mb in enumerate(boxes):
+                maxbox[d] = max(maxbox[d], len(mb._mailbox))
+            if s.nsteps > 20000:
+                hang = True
+                break
+    finally:
+        left = [(t.name, t.want and t.want[0]) for t in s.tasks if t.state != "done"]
+        s.abort()
+        dsched.set_sched(None)
+    return dict(arg=arg, o=dict(n=n, cap=cap, lazy=lazy, got=got, maxbox=maxbox, hang=bool(hang)), left=left if hang else [])
+
+
+def divider_part(chk):
+    quick = chk.tier == "quick"
+    work = []
+    for n in (0, 1, 3):
+        for nout in (2, 3) if not quick else (2,):
+            for nsub in (1, 2):
+                for cap in (1, 2):
+                    for lazy, flow in ((False, False), (True, False), (True, True)):
+                        for k in range(3 if quick else 20):
+                            work.append((n, nout, nsub, cap, lazy, flow, chk.seed * 1000 + k))
+    res = V.pmap(divider_run, work)
+    d = V.stage_spec(["MailboxObs"], {"MailboxObs.cfg": "SPECIFICATION Spec\nINVARIANT Accepted\nCHECK_DEADLOCK FALSE\n"})
+    with open(os.path.join(d, "obs.json"), "w") as f:
+        json.dump([r["o"] for r in res], f)
+    r = V.run_tlc(d, "MailboxObs", workers=1, timeout=900, env={"TRACE_FILE": os.path.join(d, "obs.json")}, args=["-continue"])
+    chk.add_tlc(r, "P-level validation of divider observations (MailboxObs.tla)")
+    if not (r.ok or r.violated):
+        raise V.MachineryError("MailboxObs failed: " + r.out[-2000:])
+    for k in sorted({int(m.group(1)) for m in re.finditer(r"tid = (\d+)", r.out)}):
+        rr = res[k - 1]
+        a = rr["arg"]
+        kind = "hang" if rr["o"]["hang"] else "delivery-or-capacity"
+        chk.violation(f"C05:divider:n{a[0]}:out{a[1]}:sub{a[2]}:cap{a[3]}:{'lazy' if a[4] else 'eager'}:flow{int(a[5])}:{kind}",
+                      f"divide_outputs with {a[1]} outputs x {a[2]} subscribers, {a[0]} elements, capacity {a[3]}, lazy={a[4]}, flow_freely={a[5]}, "
+                      f"schedule seed {a[6]}: {rr['o']} {rr['left']}", dict(divider=list(a)))
+    chk.traces += len(res)
+    chk.evaluations += len(res)
+    chk.extra["divider_runs"] = len(res)
+
+
 # ----------------------------------------------------------------------------- trace validation (B2)
 def validate_traces(chk, records):
     """records: list of (cfg, [events]); each event = thread + full projected state after the step.
@@ -528,6 +617,7 @@ def run(chk):
     chk.extra["lockstep_steps"] = sum(r["steps"] for r in results)
     chk.extra["sampled_configs"] = sum(1 for r in results if r.get("sampled"))
     chk.exhaustive = chk.extra["sampled_configs"] == 0
+    divider_part(chk)
     nval = validate_traces(chk, records)
     chk.extra["traces_validated_by_tlc"] = nval
     chk.traces += nval
@@ -537,6 +627,14 @@ def run(chk):
 
 def replay(chk, path):
     rp = json.load(open(path))["replay"]
+    if "divider" in rp:
+        rr = divider_run(tuple(rp["divider"]))
+        print(rr)
+        o = rr["o"]
+        exp = [[[10 * (d + 1) + i for i in range(o["n"])]] for d in range(len(o["got"]))]
+        bad = o["hang"] or any(g != exp[d][0] for d, gs in enumerate(o["got"]) for g in gs) or \
+            (not o["lazy"] and any(m > o["cap"] for m in o["maxbox"]))
+        return 1 if bad else 0
     c = rp["cfg"]
     sched = rp.get("schedule", [])
     it = iter(sched)
